@@ -1,3 +1,3 @@
-(* _client.py :: async_ncrypt_unprotect_secret :: ('callarg', '_async_get_key', 0, 'auth_protocol') :  auth_protocol *)
+(* _client.py :: async_ncrypt_unprotect_secret :: shape kernel :  _async_get_key(... auth_protocol: auth_protocol  [= auth_protocol] ...) *)
 Definition k_onl_aunprot_kw_auth_protocol (auth_protocol : list Z) : list Z :=
   auth_protocol.
